@@ -116,7 +116,9 @@ func (w *W) qwords(q []uint64) *W {
 func (g *G) indexString(max int) string {
 	switch g.intn(18) {
 	case 14: // digit strings at the edges of int64 / uint64: not indices (strconv.Atoi: out of range)
-		return g.pick("9223372036854775807", "9223372036854775808", "18446744073709551615", "18446744073709551616", "99999999999999999999999")
+		// (2^63-1 itself is a valid int and is accepted; sizes beyond 2^31 are outside the model - DESIGN 7, item 8 - so
+		// it is not generated)
+		return g.pick("9223372036854775808", "18446744073709551615", "18446744073709551616", "99999999999999999999999")
 	case 15: // zero-padded decimals: the same index as without the padding (never octal)
 		return g.pick("0", "00", "000") + strconv.Itoa(g.intn(max))
 	case 16: // padded two-digit indices (8, 9, 10 …: where an octal reading would differ or fail)
@@ -189,6 +191,7 @@ func grpcHistory(h *H, prop string, steps int, malformed bool) {
 	}
 	setup := g.intn(4) != 0 // most histories start from created collections
 	scenario := g.intn(2) == 0
+	flushVariant := g.intn(2)
 	for s := 0; s < steps; s++ {
 		done++
 		ctx, cancel := ctxT()
@@ -256,8 +259,50 @@ func grpcHistory(h *H, prop string, steps int, malformed bool) {
 			cancel()
 			continue
 		}
+		if prop == "C16" && setup && s >= 4 && s < 10 && scenario {
+			// flush scenario: a collection that holds NO entry when it is flushed (only a timestamp was ever sent, or
+			// every entry was erased again) - flushing resets the timestamp all the same, so a later update with a
+			// LOWER stamp sets it
+			vupd := func(ts uint64, es []*trustvectorpb.Entry) {
+				id := "p"
+				q := []uint64{ts}
+				_, err := env.tv.Update(ctx, &trustvectorpb.UpdateRequest{Header: &trustvectorpb.Header{Id: &id, TimestampQwords: q}, Entries: es})
+				w.Str("vupdate").Str(id).qwords(q).Int(len(es))
+				for _, e := range es {
+					w.Str(atoiTok(e.Trustee)).F(e.Value)
+				}
+				w.Bar().Str(codeTok(err))
+			}
+			switch s {
+			case 4:
+				if flushVariant == 0 {
+					vupd(uint64(50+g.intn(50)), nil)
+					g.count("scenario:flush-after-timestamp-only-update")
+				} else {
+					vupd(uint64(50+g.intn(50)), []*trustvectorpb.Entry{{Trustee: "1", Value: 2.5}})
+					g.count("scenario:flush-after-erasing-every-entry")
+				}
+			case 5:
+				if flushVariant == 0 {
+					w.Str("vget").Str("p").Bar()
+					emitVGet(env, ctx, w, "p")
+				} else {
+					vupd(uint64(100+g.intn(50)), []*trustvectorpb.Entry{{Trustee: "1", Value: 0}})
+				}
+			case 6:
+				_, err := env.tv.Flush(ctx, &trustvectorpb.FlushRequest{Id: "p"})
+				w.Str("vflush").Str("p").Bar().Str(codeTok(err))
+			case 7, 9:
+				w.Str("vget").Str("p").Bar()
+				emitVGet(env, ctx, w, "p")
+			case 8:
+				vupd(uint64(1+g.intn(9)), []*trustvectorpb.Entry{{Trustee: "0", Value: 1.5}})
+			}
+			cancel()
+			continue
+		}
 		kinds := 10
-		if prop == "C17" || prop == "C15" {
+		if prop == "C17" || prop == "C15" || prop == "C02" {
 			kinds = 13
 		}
 		switch k := g.intn(kinds); {
